@@ -38,7 +38,13 @@ Inner0 == SeqsOf(Fs(RedirLists0, Leaf), 1)
                      <<F(<<>>, B("ok")), F(<<>>, B("fail"))>>, <<F(<<"fileout">>, B("ok")), F(<<>>, B("consume"))>>})
 Inner1 == {<<F(rs, Cap(q))>> : rs \in {<<>>, <<"fileout">>}, q \in SeqsOf(Fs({<<>>}, Leaf), 1) \cup {<<F(<<"fileout">>, B("ok")), F(<<>>, B("consume"))>>}}
 CapForms == {F(rs, Cap(q)) : rs \in (IF Level >= 2 THEN {<<>>, <<"fileout">>, <<"close">>} ELSE {<<>>, <<"fileout">>}), q \in Inner0 \cup Inner1}
+(* forms with three redirections in which an owned port (file or pipe end) is duplicated and the
+   original slot is redirected from the duplicate or redirected again: all orders *)
+DupKinds == {"fileout", "dupok", "dupback", "filein", "dupin", "dupinback"}
+DupForms == {F(<<a, b, c>>, B("ok")) : a, b, c \in DupKinds}
+DupShapes == {<<f>> : f \in DupForms} \cup {<<F(<<>>, B("ok")), f>> : f \in DupForms} \cup {<<f, F(<<>>, B("consume"))>> : f \in DupForms}
 Shapes ==
+       DupShapes \cup
        SeqsOf(Fs(IF Level >= 2 THEN RedirLists2 ELSE RedirLists1, Leaf), 1)                              \* one form, <= 2 redirections
   \cup (IF MaxForms >= 2 THEN SeqsOf(Fs(IF Level >= 2 THEN RedirLists0 \cup {<<"dupbad">>, <<"filein">>, <<"fileout", "filefail">>, <<"fileout", "fileout">>}
                                                        ELSE RedirLists0 \cup {<<"dupbad">>}, Leaf), 2) ELSE {})
@@ -51,16 +57,22 @@ Shapes ==
 AllP == PIds(prog, <<>>)
 AllF == FIdsOf(prog, AllP)
 Res(k, id) == [k |-> k, id |-> id, slot |-> "", n |-> 0]
-FileRes(id, slot) == [k |-> "file", id |-> id, slot |-> slot, n |-> 0]
+FileRes(id, slot, n) == [k |-> "file", id |-> id, slot |-> slot, n |-> n]
 Merge(id, n) == [k |-> "merge", id |-> id, slot |-> "", n |-> n]
 Pid(f) == SubSeq(f, 1, Len(f) - 1)
 Idx(f) == f[Len(f)]
 NForms(pid) == Len(PipeAt(prog, pid))
 
+(* form state: pc, k = next redirection, exc; d2: slot 2 holds the same port as slot 1 (after 2>&1 or >&2),
+   d3: slot 3 holds the same port as slot 0 (after 3<&0 or <&3);
+   s1 / s0: what slot 1 / slot 0 holds: 0 = the port the pipeline gave the form (pipe end, or the caller's),
+   n > 0 = the file opened by the form's n-th redirection, -1 = a port taken from slot 2 / slot 3 *)
+FS(pc) == [pc |-> pc, k |-> 1, exc |-> FALSE, d2 |-> FALSE, d3 |-> FALSE, s1 |-> 0, s0 |-> 0]
+
 Init == /\ prog \in Shapes
         /\ pst = [p \in PIds(prog, <<>>) |-> IF p = <<>> THEN "ready" ELSE "idle"]
         /\ pexc = [p \in PIds(prog, <<>>) |-> FALSE]
-        /\ fst = [f \in FIdsOf(prog, PIds(prog, <<>>)) |-> [pc |-> "idle", k |-> 1, exc |-> FALSE]]
+        /\ fst = [f \in FIdsOf(prog, PIds(prog, <<>>)) |-> FS("idle")]
         /\ open = {} /\ intr = FALSE /\ ret = FALSE /\ pfail = FALSE
 
 PipelineStart(p) ==
@@ -69,7 +81,7 @@ PipelineStart(p) ==
      THEN /\ pst' = [pst EXCEPT ![p] = "done"] /\ pexc' = [pexc EXCEPT ![p] = TRUE]
           /\ UNCHANGED <<fst, open>>
      ELSE /\ pst' = [pst EXCEPT ![p] = "running"]
-          /\ fst' = [f \in DOMAIN fst |-> IF Pid(f) = p THEN [pc |-> "redir", k |-> 1, exc |-> FALSE] ELSE fst[f]]
+          /\ fst' = [f \in DOMAIN fst |-> IF Pid(f) = p THEN FS("redir") ELSE fst[f]]
           /\ open' = open \cup UNION {{Res("pw", p \o <<i>>), Res("pr", p \o <<i + 1>>), Res("stage", p \o <<i>>)} : i \in 1..(NForms(p) - 1)}
           /\ UNCHANGED pexc
   /\ UNCHANGED <<prog, intr, ret, pfail>>
@@ -82,22 +94,34 @@ PipelineStartFail(p, i) ==
   /\ PipeFail /\ ~pfail /\ ~intr /\ pst[p] = "ready" /\ i \in 1..(NForms(p) - 1)
   /\ pst' = [pst EXCEPT ![p] = "running"] /\ pexc' = [pexc EXCEPT ![p] = TRUE] /\ pfail' = TRUE
   /\ fst' = [f \in DOMAIN fst |-> IF Pid(f) # p THEN fst[f]
-                                 ELSE IF Idx(f) < i THEN [pc |-> "redir", k |-> 1, exc |-> FALSE]
-                                 ELSE [pc |-> "end", k |-> 1, exc |-> FALSE]]
+                                 ELSE IF Idx(f) < i THEN FS("redir")
+                                 ELSE FS("end")]
   /\ open' = open \cup UNION {{Res("pw", p \o <<j>>), Res("stage", p \o <<j>>)} : j \in 1..(i - 1)}
                   \cup {Res("pr", p \o <<j + 1>>) : j \in 1..(i - 2)}
   /\ UNCHANGED <<prog, intr, ret>>
+
+(* the resource a slot holds for the form: the pipe end, a file, or nothing of the form's *)
+Held(f, slot, s) == IF s = 0 THEN {Res(IF slot = "out" THEN "pw" ELSE "pr", f)}
+                    ELSE IF s > 0 THEN {FileRes(f, slot, s)} ELSE {}
 
 Redir(f) ==
   /\ fst[f].pc = "redir"
   /\ LET rs == FormAt(prog, f).redirs
          k  == fst[f].k
      IN IF k > Len(rs) THEN /\ fst' = [fst EXCEPT ![f].pc = "body"] /\ UNCHANGED open
-        ELSE CASE rs[k] \in RaisingRedirs -> /\ fst' = [fst EXCEPT ![f].pc = "closing", ![f].exc = TRUE] /\ UNCHANGED open
-               [] rs[k] = "fileout" -> /\ open' = (open \ {Res("pw", f)}) \cup {FileRes(f, "out")}    \* the displaced pipe end / earlier file is closed at once
-                                       /\ fst' = [fst EXCEPT ![f].k = k + 1]
-               [] rs[k] = "filein"  -> /\ open' = (open \ {Res("pr", f)}) \cup {FileRes(f, "in")}
-                                       /\ fst' = [fst EXCEPT ![f].k = k + 1]
+        ELSE CASE RaisesAt(rs, k) -> /\ fst' = [fst EXCEPT ![f].pc = "closing", ![f].exc = TRUE] /\ UNCHANGED open
+               \* a displaced port that the form owns is released at once unless another slot still holds it
+               \* (then it lives until FormExit)
+               [] rs[k] = "fileout" -> /\ open' = (IF fst[f].d2 THEN open ELSE open \ Held(f, "out", fst[f].s1)) \cup {FileRes(f, "out", k)}
+                                       /\ fst' = [fst EXCEPT ![f].k = k + 1, ![f].d2 = FALSE, ![f].s1 = k]
+               [] rs[k] = "filein"  -> /\ open' = (IF fst[f].d3 THEN open ELSE open \ Held(f, "in", fst[f].s0)) \cup {FileRes(f, "in", k)}
+                                       /\ fst' = [fst EXCEPT ![f].k = k + 1, ![f].d3 = FALSE, ![f].s0 = k]
+               [] rs[k] = "dupok"   -> /\ fst' = [fst EXCEPT ![f].k = k + 1, ![f].d2 = TRUE] /\ UNCHANGED open
+               [] rs[k] = "dupin"   -> /\ fst' = [fst EXCEPT ![f].k = k + 1, ![f].d3 = TRUE] /\ UNCHANGED open
+               [] rs[k] = "dupback" -> /\ open' = IF fst[f].d2 THEN open ELSE open \ Held(f, "out", fst[f].s1)   \* from its own duplicate: nothing changes
+                                       /\ fst' = [fst EXCEPT ![f].k = k + 1, ![f].d2 = TRUE, ![f].s1 = IF fst[f].d2 THEN @ ELSE -1]
+               [] rs[k] = "dupinback" -> /\ open' = IF fst[f].d3 THEN open ELSE open \ Held(f, "in", fst[f].s0)
+                                         /\ fst' = [fst EXCEPT ![f].k = k + 1, ![f].d3 = TRUE, ![f].s0 = IF fst[f].d3 THEN @ ELSE -1]
                [] OTHER -> /\ fst' = [fst EXCEPT ![f].k = k + 1] /\ UNCHANGED open
   /\ UNCHANGED <<prog, pst, pexc, intr, ret, pfail>>
 
